@@ -14,7 +14,7 @@ NAMESPACE = 'SshAudit.C17'
 THEOREMS = ['policy_names_known', 'policy_names_not_failing', 'policy_sizes_clean', 'hostkey_types_known',
             'probe_tables_known', 'dheat_names_known', 'dheat_tables_consistent', 'broken_primitive_failed₂',
             'entry_shape₂', 'entry_shape₁', 'categories₂', 'categories₁',
-            'broken_primitive_failed₁_false', 'broken_primitive_failed₁_partial']
+            'broken_primitive_failed₁_false', 'broken_primitive_failed₁_partial', 'builtin_peer_no_fail', 'builtin_peer_all_known']
 
 TOKENS = 'md5 sha1 arcfour rc4 des none dss group1- 1024 nistp nistk nistb nistt ripemd blowfish cast idea seed serpent rijndael gost null'.split()
 
